@@ -52,9 +52,32 @@ package mline
 //@   modifies q.Q.closed, list.List.lmem, list.List.lcnt, list.Element.lrk, list.Element.Value, region($alloc)
 //
 //@ func MultiLine.popLoop
-//@   requires mlwf(c) && 0 <= index && index < c.slotSize && curLane == index
+//@   requires mlwf(c) && 0 <= index && index < c.slotSize && curLane == index && c.wg != nil
+//@   ensures #done wgDones == old(wgDones) + 1
 //@   aftercall PopAnyway use enqueued_by_addCallCtx(result)
 //@   modifies q.Q.closed, list.List.lmem, list.List.lcnt, list.Element.lrk, list.Element.Value, region($alloc)
 //@   loop 1
 //@     invariant #serial spawned() == old(spawned())
 //@     invariant mlwf(c) && 0 <= index && index < c.slotSize && mq == c.qs[index] && curLane == index
+//
+// ---- life cycle: Run starts one goroutine per lane; Stop closes every lane's queue (once) and starts the single
+// waiter; each lane loop reports Done on every way out ----
+//@ func MultiLine.Run
+//@   requires c != nil && c.slotSize >= 0
+//@   ensures #perlane spawned() == old(spawned()) + c.slotSize
+//@   modifies region($spawns)
+//@   loop 1
+//@     invariant 0 <= i && i <= c.slotSize && spawned() == old(spawned()) + i
+//@ func MultiLine.stop
+//@   requires mlwf(c)
+//@   ensures #allclosed forall i int :: { c.qs[i] } 0 <= i && i < len(c.qs) ==> c.qs[i].closed
+//@   ensures #onewaiter spawned() == old(spawned()) + 1
+//@   modifies region($spawns), q.Q.closed, list.List.lmem, list.List.lcnt, list.Element.lrk, list.Element.Value
+//@   loop 1
+//@     invariant mlwf(c) && 0 <= i && i <= c.slotSize && spawned() == old(spawned()) && forall k int :: { c.qs[k] } 0 <= k && k < i ==> c.qs[k].closed
+//@ func MultiLine.Stop
+//@   requires mlwf(c)
+//@   ensures #first !old(oncedone(c.stopOnce)) ==> (forall i int :: { c.qs[i] } 0 <= i && i < len(c.qs) ==> c.qs[i].closed) && spawned() == old(spawned()) + 1
+//@   ensures #again old(oncedone(c.stopOnce)) ==> spawned() == old(spawned())
+//@   modifies region($oncedone), region($spawns), q.Q.closed, list.List.lmem, list.List.lcnt, list.Element.lrk, list.Element.Value
+
